@@ -1189,6 +1189,7 @@ func builtinCompose(env *LEnv, args *LVal) *LVal {
 	body := SExpr([]*LVal{Symbol("lisp:funcall"), f, gcall})
 	gcall.Cells = append(gcall.Cells, Symbol("lisp:apply"), g)
 	var restSym *LVal
+	inKeys := false
 	for i, argSym := range formals.Cells {
 		if argSym.Type != LSymbol {
 			// This should not happen.  The list of formals should be checked
@@ -1199,6 +1200,9 @@ func builtinCompose(env *LEnv, args *LVal) *LVal {
 			continue
 		}
 		if argSym.Str == KeyArgSymbol {
+			// The formals after &key are passed on with their keywords: g
+			// binds them by name, not by position.
+			inKeys = true
 			continue
 		}
 		if argSym.Str == VarArgSymbol {
@@ -1209,6 +1213,9 @@ func builtinCompose(env *LEnv, args *LVal) *LVal {
 			}
 			restSym = formals.Cells[i+1]
 			break
+		}
+		if inKeys {
+			gcall.Cells = append(gcall.Cells, Symbol(":"+argSym.Str))
 		}
 		gcall.Cells = append(gcall.Cells, argSym)
 	}
